@@ -37,6 +37,36 @@ def build(rec):
     return g
 
 
+def rebuild(g, mode, seed):
+    """Re-create the grid through the public constructor pp.Grid(dim, nodes, face_nodes,
+    cell_faces, name) from copies of its matrices in another sparse storage format."""
+    if mode == "asis":
+        return g
+    cf = g.cell_faces.copy()
+    fn = g.face_nodes.copy()
+    tags = None
+    if mode in ("cf_csr", "cf_csr_unsorted", "both_csr_exttags"):
+        cf = sps.csr_matrix(cf)
+    if mode == "cf_csr_unsorted":
+        # coo with shuffled entries -> csr, then reverse the stored order inside every row
+        c = sps.coo_matrix(cf)
+        perm = np.random.RandomState(seed % (2 ** 31)).permutation(c.nnz)
+        cf = sps.csr_matrix(sps.coo_matrix((c.data[perm], (c.row[perm], c.col[perm])),
+                                           shape=c.shape))
+        for r in range(cf.shape[0]):
+            a, b = cf.indptr[r], cf.indptr[r + 1]
+            cf.indices[a:b] = cf.indices[a:b][::-1].copy()
+            cf.data[a:b] = cf.data[a:b][::-1].copy()
+        cf.has_sorted_indices = False
+    if mode in ("fn_csr_exttags", "both_csr_exttags"):
+        # face_nodes is documented as csc-only for the node tags / geometry (the constructor's
+        # update_boundary_node_tag reads its indptr as csc), so the tags are handed over
+        # through the constructor's external_tags parameter; cell_nodes must still be right.
+        fn = sps.csr_matrix(fn)
+        tags = {k: np.array(v, copy=True) for k, v in g.tags.items()}
+    return pp.Grid(g.dim, g.nodes.copy(), fn, cf, "rebuilt-" + mode, external_tags=tags)
+
+
 def _coo(m):
     """Stored entries (row, col, value) in column-major order; the matrix must be
     canonical up to index order (no duplicate stored coordinates)."""
@@ -88,7 +118,8 @@ class C21(Prop):
         "transpose of the incidence (for any incidence).  Tie: on every run the real queries "
         "are executed on Cartesian 1-3-D, tensor, structured triangle / tetrahedral grids, "
         "fracture-split md-grid subdomains (2-D/3-D hosts, fracture and intersection grids), "
-        "point grids and extracted subgrids, and Coq recomputes every output from the real "
+        "point grids and extracted subgrids, as constructed and re-created through the public "
+        "pp.Grid constructor with csr-stored cell_faces / face_nodes, and Coq recomputes every output from the real "
         "stored entries and compares; Coq also evaluates the well-formedness hypothesis on "
         "every one of those real incidences.")
     level_note = (
@@ -106,7 +137,11 @@ class C21(Prop):
             "StructuredTetrahedralGrid, PointGrid, subdomains of pp.meshing.cart_grid md-grids "
             "with 1-3 axis-aligned fractures (2-D and 3-D hosts; host, fracture and intersection "
             "grids), pp.partition.extract_subgrid of any of these on random cell subsets "
-            "(connected or not); face lists for signs_and_cells: random permuted subsets of the "
+            "(connected or not); about 2/3 of the grids are re-created through the public constructor "
+            "pp.Grid(dim, nodes, face_nodes, cell_faces, name) from copies of their matrices with "
+            "cell_faces as csr (sorted, or built from shuffled coo with reversed in-row order) and/or "
+            "face_nodes as csr (tags then passed as external_tags), and every query plus the "
+            "as-constructed tags are taken from the rebuilt grid; face lists for signs_and_cells: random permuted subsets of the "
             "one-cell faces, with streams for empty lists, duplicates and lists containing an "
             "internal face (ValueError); divergence dims from {-1,0,1,2,3}; non-trivial = grid "
             "with at least one internal face; distinct by (case, output)")
@@ -193,8 +228,10 @@ class C21(Prop):
                 k = rng.randint(1, 6)
                 rec = {"kind": "sub", "base": rec, "cells": [rng.randint(0, 10 ** 6) for _ in range(k)]}
             mode = rng.choice(["subset", "subset", "subset", "all", "empty", "dup", "internal", "internal"])
+            storage = rng.choice(["asis"] * 7 + ["cf_csr"] * 6 + ["cf_csr_unsorted"] * 3
+                                 + ["fn_csr_exttags"] * 2 + ["both_csr_exttags"] * 2)
             yield {"grid": rec, "faces_mode": mode, "faces_seed": rng.randint(0, 2 ** 30),
-                   "ddim": rng.choice([1, 1, 2, 2, 3, 3, 0, -1])}
+                   "ddim": rng.choice([1, 1, 2, 2, 3, 3, 0, -1]), "storage": storage}
 
     # ------------------------------------------------------------------ implementation
     def _faces(self, case, g):
@@ -218,7 +255,9 @@ class C21(Prop):
         return fs
 
     def run_impl(self, case):
-        g = build(case["grid"])
+        g = rebuild(build(case["grid"]), case.get("storage", "asis"), case["faces_seed"])
+        st = "storage_" + case.get("storage", "asis")
+        self.stats[st] = self.stats.get(st, 0) + 1
         faces = self._faces(case, g)
         cf = _coo(g.cell_faces)
         fn = _coo(g.face_nodes)
